@@ -99,6 +99,7 @@ def detect(wt, mdir, prop, name, also, thorough):
                     break          # a concrete failing input was reported; otherwise try the deeper tier too
     finally:
         sh("git -C /repo checkout -- .")
+        sh("git -C %s checkout -- evidence" % V)      # evidence files written by runs on the changed tree are not evidence
         for t in ("consts_extract", "asm_extract", "wraptable_extract", "shape_extract"):   # Generated/*.lean back to the clean tree
             sh("python3 translate/%s.py" % t, cwd=V)
     meta["detection"] = det
